@@ -313,12 +313,13 @@ def run(prop, tier, seed):
         for fl in DIRECTED:
             if tier == 'quick':
                 items += list(scc_scenarios(fl, 3, 4))
+                items += list(scc_scenarios(fl, 4, 3))
             else:
                 items += list(scc_scenarios(fl, 3, 5))
                 items += list(scc_scenarios(fl, 4, 4))
         return scenario_check(
             prop, tier, seed, items, evaluate_c11, sig_c11,
-            bounds={'members': 3 if tier == 'quick' else '3 (<=5 edges) and 4 (<=4 edges)', 'max_edges': 4 if tier == 'quick' else 5,
+            bounds={'members': '3 (<=4 edges) and 4 (<=3 edges)' if tier == 'quick' else '3 (<=5 edges) and 4 (<=4 edges)', 'max_edges': 4 if tier == 'quick' else 5,
                     'free_choices': 'the order in which the hash map yields its members at every next() (subsumes insertion order)',
                     'outside': 'larger graphs; neighbours that are not members'},
             assumptions=['AHashMap/AHashSet modelled as association lists with free iteration order', 'std models of engine A',
